@@ -267,8 +267,9 @@ class Check:
         elif self.inconclusive:
             rc = 2
         self.write_evidence(violations, known_hits, rc)
-        for r in self.inconclusive[:20]:
-            log('[%s] INCONCLUSIVE: %s' % (self.pid, r))
+        seen_inc = collections.Counter(self.inconclusive)
+        for r, n in list(seen_inc.items())[:12]:
+            log('[%s] INCONCLUSIVE%s: %s' % (self.pid, (' (x%d)' % n) if n > 1 else '', r))
         log('[%s] tier=%s exit=%d paths=%d queries=%d solver=%.1fs wall=%.1fs' % (
             self.pid, self.tier, rc, eng.stats['paths'], eng.stats['queries'], eng.stats['solver_s'], time.time() - self.t0))
         sys.stdout.flush()
